@@ -212,6 +212,12 @@ def _gen_frechet():
     return frechet.generate(core.REPO, core.LEAN / "Pun/Gen/FrechetGen.lean")
 
 
+def _gen_dispatch():
+    from .translator import dispatch
+    dispatch.generate(core.REPO, core.LEAN / "Pun/Gen/DispatchGen.lean")
+    return "ok: dispatch tables and swap chains"
+
+
 def _gen_corners():
     from .translator import frechet
     return frechet.generate_corners(core.REPO, core.LEAN / "Pun/Gen/CornersGen.lean")
@@ -224,8 +230,9 @@ def run(ctx: core.Check):
                 "Non-trivial = not both operands degenerate points; distinct on (rule,op,operands).")
     ctx.assumptions = ["order of equal keys in numpy.sort is irrelevant to the sorted values",
                        "binary64 rounding not modelled (exact agreement on integer streams for + - *)"]
-    ctx.lean_stage(["Pun.Lemmas.PBoxFrechet2", "Pun.Lemmas.PBoxRecip", "Pun.Props.C03", "Pun.Props.C02Gen", "Pun.Props.C03Gen"],
-                   generators=[("operation.frechet_op loop", _gen_frechet), ("operation.perfect/opposite/independent_op corner rules", _gen_corners)])
+    ctx.lean_stage(["Pun.Lemmas.PBoxFrechet2", "Pun.Lemmas.PBoxRecip", "Pun.Props.C03", "Pun.Props.C02Gen", "Pun.Props.C03Gen", "Pun.Props.C16Gen"],
+                   generators=[("operation.frechet_op loop", _gen_frechet), ("operation.perfect/opposite/independent_op corner rules", _gen_corners),
+                               ("pbox_abc.py dependency dispatch and the p<->o swap of sub/div", _gen_dispatch)])
     cases = gen_cases(ctx)
     replies = core.model_batch("C03", [wire(c) for c in cases])
     for c, rep in zip(cases, replies):
